@@ -67,41 +67,37 @@ func c14AcceptSite(c *Ctx) {
 		b, f, ok := fieldLoad(strip(v))
 		return ok && f.Name() == "session" && b == ssa.Value(cP)
 	}
-	// calls
-	var getPw, setUI, proc *ssa.Call
-	for _, ci := range callsIn(fn) {
-		call, ok := ci.(*ssa.Call)
-		if !ok || !call.Call.IsInvoke() {
-			continue
+	// calls (in authenticate itself or in a helper it calls statically)
+	one := func(method string) (stepRef, bool) {
+		sts := c.findInvokeSteps(fn, method)
+		if len(sts) != 1 {
+			return stepRef{}, false
 		}
-		switch call.Call.Method.Name() {
-		case "GetPassword":
-			getPw = call
-		case "SetUserInfo":
-			setUI = call
-		case "ProcessAuthenticateMessage":
-			proc = call
-		}
+		return sts[0], true
 	}
-	if getPw == nil || setUI == nil || proc == nil {
-		c.Bad(rule, key+" calls", fn.Pos(), "GetPassword / SetUserInfo / ProcessAuthenticateMessage not all present")
+	getPwS, ok1 := one("GetPassword")
+	setUIS, ok2 := one("SetUserInfo")
+	procS, ok3 := one("ProcessAuthenticateMessage")
+	if !ok1 || !ok2 || !ok3 || len(setUIS.via) > 0 || len(procS.via) > 0 {
+		c.Bad(rule, key+" calls", fn.Pos(), "GetPassword / SetUserInfo / ProcessAuthenticateMessage not all present exactly once")
 		return
 	}
-	user := getPw.Call.Args[0]
+	getPw, setUI, proc := getPwS.call, setUIS.call, procS.call
+	user := strip(c.upIn(getPwS, getPw.Call.Args[0]))
 	// user = am.UserName.String()
 	userOK := false
-	if sc, ok := strip(user).(*ssa.Call); ok && calleeName(sc) == "(*"+goNtlm+".PayloadStruct).String" {
+	if sc, ok := user.(*ssa.Call); ok && calleeName(sc) == "(*"+goNtlm+".PayloadStruct).String" {
 		if b, f, ok := fieldLoad(strip(recvOf(sc))); ok && f.Name() == "UserName" && b == ssa.Value(amP) {
 			userOK = true
 		}
 	}
 	c.Check(userOK, rule, key+" user", getPw.Pos(), "the user looked up is the UserName of the message being verified", "the password looked up is not for the user named in the authenticate message")
 	dbOK := false
-	if root, path := fieldPath(getPw.Call.Value); root == ssa.Value(cP) && len(path) == 2 && path[0] == "h" && path[1] == "Database" {
+	if root, path := c.fieldPathIn(getPwS, getPw.Call.Value); root == ssa.Value(cP) && len(path) == 2 && path[0] == "h" && path[1] == "Database" {
 		dbOK = true
 	}
 	c.Check(dbOK, rule, key+" database", getPw.Pos(), "password from the verifier's configured database", "the password does not come from c.h.Database")
-	c.Check(isSessionLoad(setUI.Call.Value) && setUI.Call.Args[0] == user && setUI.Call.Args[1] == ssa.Value(getPw), rule, key+" SetUserInfo", setUI.Pos(),
+	c.Check(isSessionLoad(setUI.Call.Value) && strip(setUI.Call.Args[0]) == user && c.norm(setUI.Call.Args[1]) == ssa.Value(getPw), rule, key+" SetUserInfo", setUI.Pos(),
 		"session primed with exactly that user and its configured password", "SetUserInfo is not given the looked-up user and its configured password on c.session")
 	c.Check(isSessionLoad(proc.Call.Value) && proc.Call.Args[0] == ssa.Value(amP) && dominatesInstr(setUI, proc), rule, key+" Process", proc.Pos(),
 		"the message is verified by c.session after SetUserInfo", "ProcessAuthenticateMessage is not applied to the message on c.session after SetUserInfo")
@@ -126,12 +122,13 @@ func c14AcceptSite(c *Ctx) {
 			g1 := GNeq(isSessionLoad, anyNil)
 			ok1, w1 := mustPass(fn, s, g1)
 			c.Check(ok1, rule, key+" accept session", s.Pos(), "only with an existing session (a negotiate preceded in this context)", "accepting store "+w1+" of c.session != nil")
-			ok2, w2 := mustPass(fn, s, GNeq(isVal(getPw), func(v ssa.Value) bool { x, ok := constString(v); return ok && x == "" }))
+			isPw := func(v ssa.Value) bool { return isVal(getPw)(v) || c.norm(rv(v)) == ssa.Value(getPw) }
+			ok2, w2 := mustPass(fn, s, GNeq(isPw, func(v ssa.Value) bool { x, ok := constString(v); return ok && x == "" }))
 			c.Check(ok2, rule, key+" accept password", s.Pos(), "only with a non-empty configured password", "accepting store "+w2+" of password != \"\": unknown users or empty passwords can be authenticated")
 			ok3, w3 := mustPass(fn, s, GErrNil(proc))
 			c.Check(ok3, rule, key+" accept proof", s.Pos(), "only when ProcessAuthenticateMessage succeeded", "accepting store "+w3+" of the NTLMv2 verification")
 		case userF:
-			c.Check(s.Val == user, rule, key+" username", s.Pos(), "returns exactly the verified user name", "the user name returned is not the one that was verified")
+			c.Check(strip(s.Val) == user, rule, key+" username", s.Pos(), "returns exactly the verified user name", "the user name returned is not the one that was verified")
 		}
 	})
 	if nTrue == 0 {
@@ -234,16 +231,24 @@ func c14ContextScope(c *Ctx) {
 	}
 	c.Check(sessField(arg(getCtx, 0)), rule, key+" getContext.key", getCtx.Pos(), "context looked up by the request's own Session", "the context is not looked up by the request's Session")
 	c.Check(recvOf(inner) == ssa.Value(getCtx), rule, key+" context-used", inner.Pos(), "the message is examined in that context", "the message is examined in a different context")
-	for i, r := range removes {
-		c.Check(sessField(arg(r, 0)), rule, key+" removeContext.key#"+itoa(i), r.Pos(), "removes this request's context", "removeContext is not keyed by the request's Session")
-	}
-	isRemove := func(in ssa.Instruction) bool {
-		for _, r := range removes {
-			if in == ssa.Instruction(r) {
-				return true
-			}
+	// removeContext calls anywhere in the package (the decision may live in a helper of Authenticate)
+	nRem := 0
+	for _, f := range c.allFirstPartyFuncs() {
+		if f.Pkg == nil || f.Pkg.Pkg.Path() != ntlmPkgPath {
+			continue
 		}
-		return false
+		for _, r := range callsTo(f, "(*"+ntlmPkgPath+".NTLMAuth).removeContext") {
+			c.Check(c.allUp(arg(r, 0), sessField), rule, key+" removeContext.key#"+itoa(nRem), r.Pos(), "removes this request's context", "removeContext is not keyed by the request's Session")
+			nRem++
+		}
+	}
+	_ = removes
+	isRemove := func(in ssa.Instruction) bool {
+		call, ok := in.(*ssa.Call)
+		if !ok || calleeName(call) != "(*"+ntlmPkgPath+".NTLMAuth).removeContext" {
+			return false
+		}
+		return sessField(rv(strip(arg(call, 0))))
 	}
 	respField := func(name string) func(ssa.Value) bool {
 		return func(v ssa.Value) bool {
@@ -338,16 +343,106 @@ func c14EmptyArgs(c *Ctx) {
 func c14Database(c *Ctx) {
 	rule := "C14/database"
 	fn := c.Fn("cmd/auth/database", "Config.GetPassword")
+	// every non-empty result is the Password field of the users-map entry looked up under the given
+	// name (the lookup may sit in a helper and may use the comma-ok form)
+	var lookupsOf func(v ssa.Value, depth int) ([]*ssa.Lookup, bool)
+	lookupsOf = func(v ssa.Value, depth int) ([]*ssa.Lookup, bool) {
+		v = strip(v)
+		switch x := v.(type) {
+		case *ssa.Lookup:
+			return []*ssa.Lookup{x}, true
+		case *ssa.Extract:
+			if lk, ok := x.Tuple.(*ssa.Lookup); ok && x.Index == 0 {
+				return []*ssa.Lookup{lk}, true
+			}
+			if call, ok := x.Tuple.(*ssa.Call); ok && depth < 2 {
+				cal := call.Call.StaticCallee()
+				if cal == nil || !IsFirstParty(cal) || cal.Blocks == nil {
+					return nil, false
+				}
+				var out []*ssa.Lookup
+				for _, r := range returnsOf(cal) {
+					ls, ok := lookupsOf(unspill(r.Results[x.Index]), depth+1)
+					if !ok {
+						return nil, false
+					}
+					out = append(out, ls...)
+				}
+				return out, true
+			}
+		case *ssa.Call:
+			cal := x.Call.StaticCallee()
+			if cal == nil || !IsFirstParty(cal) || cal.Blocks == nil || depth >= 2 {
+				return nil, false
+			}
+			var out []*ssa.Lookup
+			for _, r := range returnsOf(cal) {
+				ls, ok := lookupsOf(unspill(r.Results[0]), depth+1)
+				if !ok {
+					return nil, false
+				}
+				out = append(out, ls...)
+			}
+			return out, true
+		case *ssa.UnOp:
+			if x.Op == token.MUL {
+				return lookupsOf(x.X, depth)
+			}
+		case *ssa.Alloc:
+			// a local struct copy: the one value stored into it
+			var val ssa.Value
+			n := 0
+			for _, r := range *x.Referrers() {
+				if st, ok := r.(*ssa.Store); ok && st.Addr == ssa.Value(x) {
+					val = st.Val
+					n++
+				}
+			}
+			if n == 1 {
+				return lookupsOf(val, depth)
+			}
+		case *ssa.Phi:
+			var out []*ssa.Lookup
+			for _, e := range x.Edges {
+				ls, ok := lookupsOf(e, depth)
+				if !ok {
+					return nil, false
+				}
+				out = append(out, ls...)
+			}
+			return out, true
+		}
+		return nil, false
+	}
+	isName := func(v ssa.Value) bool { return strip(v) == ssa.Value(fn.Params[1]) }
 	good := false
+	bad := false
 	for _, r := range returnsOf(fn) {
 		for _, o := range origins(r.Results[0]) {
-			if o.Kind == "field" && o.Field.Name() == "Password" {
-				if lk, ok := o.Base.(*ssa.Lookup); ok && lk.Index == ssa.Value(fn.Params[1]) {
-					good = true
+			switch {
+			case o.Kind == "const":
+				if x, ok := constString(o.Value); !ok || x != "" {
+					bad = true
 				}
+			case o.Kind == "field" && o.Field.Name() == "Password":
+				ls, ok := lookupsOf(o.Base, 0)
+				if !ok || len(ls) == 0 {
+					bad = true
+					break
+				}
+				for _, lk := range ls {
+					if _, f, isF := fieldLoad(strip(lk.X)); !isF || f.Name() != "users" || !c.allUp(lk.Index, isName) {
+						bad = true
+					} else {
+						good = true
+					}
+				}
+			default:
+				bad = true
 			}
 		}
 	}
+	good = good && !bad
 	c.Check(good, rule, shortFn(fn), fn.Pos(), "password = users[<the given name>].Password (exact key; unknown users yield \"\")", "GetPassword is not an exact lookup of the given user name")
 	nc := c.Fn("cmd/auth/database", "NewConfig")
 	okKey := false
